@@ -472,10 +472,13 @@ def prios_lists(leaf_ids, rng, n=4):
 def cfg_cases(ctx, inv, quick_prios=3):
     q = ctx.tier == "quick"
     cases = []
-    u = universe(ctx.tier, ["ccAny", "ccXor", "Cfg"] + ([] if q else ["Imply", "All"]), leaves=[LEAF("a"), LEAF("b"), LEAF("c")], values=[1], signs=(0,),
-                 ids=("gen", "exp") if not q else ("exp",), comp=2 if q else 3, kids=3 if q else 2)
-    r = ctx.model_check("PuanBuild", u, invariants=inv, dump=True, name="Build_cfg")
+    u = universe(ctx.tier, ["ccAny", "ccXor", "Cfg"], leaves=[LEAF("a"), LEAF("b"), LEAF("c")] + ([] if q else [LEAF("d")]), values=[1], signs=(0,),
+                 ids=("gen", "exp") if not q else ("exp",), comp=2, kids=3)
+    r = ctx.model_check("PuanBuild", u, invariants=inv, dump=True, name="Build_cfg", timeout=3000)
     cs = [c for c in spec_cases(ctx, r) if c["recipe"]["c"] == "Cfg"]
+    if len(cs) > 4000:
+        ctx.notes.append("a seeded sample of 4000 of the %d enumerated configurators is replayed into the library" % len(cs))
+        cs = ctx.rng.sample(cs, 4000)
     for c in cs:
         c["prios_list"] = prios_lists(B_leaves(c["recipe"]), ctx.rng, n=1)
     cases += cs
